@@ -33,6 +33,39 @@ fn first_diff(a: &[Vec<String>], b: &[Vec<String>]) -> Option<(usize, String, St
     None
 }
 
+/// Runs `h` through the model-based interpreter in a new process of this very program.
+/// Some(true) = it followed the model there, Some(false) = it deviated there too, None = no verdict.
+fn isolated_in_fresh_process(h: &History) -> Option<bool> {
+    let exe = std::env::current_exe().ok().filter(|p| p.file_name().map_or(false, |n| n == "vp")).or_else(|| {
+        let p = std::path::PathBuf::from("/verif/target/release/vp");
+        p.exists().then_some(p)
+    })?;
+    let dir = format!("{}/replays", out_dir());
+    let _ = std::fs::create_dir_all(&dir);
+    let path = format!("{}/.isolated-{}-{:x}.json", dir, std::process::id(), digest(h));
+    std::fs::write(&path, serde_json::to_string(h).ok()?).ok()?;
+    let out = std::process::Command::new(exe).args(["C20", "--isolated-history", &path]).stdin(std::process::Stdio::null()).output();
+    let _ = std::fs::remove_file(&path);
+    match out.ok()?.status.code()? {
+        0 => Some(true),
+        3 => Some(false),
+        _ => None,
+    }
+}
+
+/// entry point of the fresh process: exit code 0 = the history follows the model, 3 = it deviates
+pub fn isolated_history_main(path: &str) -> i32 {
+    let Ok(text) = std::fs::read_to_string(path) else { return 2 };
+    let Ok(h) = serde_json::from_str::<History>(&text) else { return 2 };
+    for _ in 0..3 {
+        match guard(|| agentsim::run_history(&h)) {
+            Ok(Ok(_)) => {}
+            _ => return 3,
+        }
+    }
+    0
+}
+
 fn test(c: &Case, st: &mut Stats) -> TestResult {
     st.eval();
     let origin = agentsim::process_origin();
@@ -132,6 +165,14 @@ fn test(c: &Case, st: &mut Stats) -> TestResult {
     // parameters (never seen before in this process) behaves correctly in isolation and deviates
     // again next to them; otherwise it is a plain timing / life-cycle defect (C05, C06).
     if h.ops.iter().any(|o| matches!(o, Op::SendConfigured { .. } | Op::Configure { .. })) {
+        // every poll a drain: which transaction a single poll serves first depends on the map order of
+        // the agent instance, and a verdict that compares two executions must not depend on that
+        let drained = History {
+            tcp: h.tcp,
+            remote: h.remote,
+            ops: h.ops.iter().map(|o| if matches!(o, Op::Poll) { Op::Drain } else { o.clone() }).collect(),
+        };
+        let h = &drained;
         let with = guard(|| agentsim::run_history_with_interference(h)).map_err(|p| Fail::new("c20-panic", p))?;
         st.class("history with configured timeouts run next to near-identical agents");
         // only what other agents could plausibly disturb through shared state is examined here: the
@@ -142,18 +183,22 @@ fn test(c: &Case, st: &mut Stats) -> TestResult {
             _ => None,
         };
         if let Some(d) = disturbed {
-            let isolated = guard(|| agentsim::run_history(&agentsim::shift_config(h, 2))).map_err(|p| Fail::new("c20-panic", p))?;
-            let again = guard(|| agentsim::run_history_with_interference(&agentsim::shift_config(h, 4))).map_err(|p| Fail::new("c20-panic", p))?;
-            if isolated.is_ok() && again.is_err() {
-                return Err(Fail::new(
-                    "c20-other-agents",
-                    format!(
-                        "next to unrelated agents that configure nearly the same timeouts (sub-millisecond differences) the agent deviates from the reference model ({}), while the same history with neighbouring parameters is handled correctly when it runs alone",
-                        d.msg
-                    ),
-                ));
+            // Blamed on the other agents only if the very same history, executed alone in a FRESH
+            // PROCESS (nothing any other agent did can be there), follows the model. State shared
+            // through the process survives in this one, so an in-process control would not do.
+            match isolated_in_fresh_process(h) {
+                Some(true) => {
+                    return Err(Fail::new(
+                        "c20-other-agents",
+                        format!(
+                            "next to unrelated agents that configure nearly the same timeouts (sub-millisecond differences) the agent deviates from the reference model ({}), while the same history executed alone in a fresh process follows it",
+                            d.msg
+                        ),
+                    ));
+                }
+                Some(false) => st.class("deviates from the model with and without other agents (C05/C06/C18's business, not judged here)"),
+                None => st.class("deviation next to other agents could not be re-examined in a fresh process (not judged)"),
             }
-            st.class("deviates from the model with and without other agents (C05/C06's business, not judged here)");
         }
     }
     let tx = base.iter().flatten().filter(|l| l.contains(" tx ")).count();
